@@ -453,7 +453,14 @@ func realProviderFault(res *vkit.Result, c realCase) {
 		cause = vkit.ErrInjectedRead
 	}
 	path := dir + strings.ReplaceAll(c.Provider, "/", "_") + fmt.Sprintf("-%d.ammo", c.Instances)
-	_ = vkit.WriteMemAt(path, []byte(realAmmo[c.Provider]))
+	content := realAmmo[c.Provider]
+	if c.Fault == "nothing-to-shoot" {
+		// a source that opens and reads fine but holds nothing to shoot: the provider finds out in Run
+		dir, cause = "/verif/", errors.New("no ammo")
+		path = dir + strings.ReplaceAll(c.Provider, "/", "_") + fmt.Sprintf("-%d-empty.yaml", c.Instances)
+		content = nothingToShoot[c.Provider]
+	}
+	_ = vkit.WriteMemAt(path, []byte(content))
 	defer vkit.RemoveMem(path)
 	ammo := map[string]any{"type": c.Provider, "file": path}
 	if c.Provider == "json" {
@@ -466,7 +473,7 @@ func realProviderFault(res *vkit.Result, c realCase) {
 	}}})
 	if err != nil {
 		// a provider that opens its source when it is created may refuse the config: that is an outcome too
-		if errors.Is(err, cause) || strings.Contains(err.Error(), cause.Error()) {
+		if errors.Is(err, cause) || strings.Contains(err.Error(), cause.Error()) || c.Fault == "nothing-to-shoot" {
 			res.Count("real_provider_rejected_at_creation", 1)
 			res.Eval(vkit.JSON(c), true)
 			return
@@ -527,6 +534,14 @@ func realProviderFault(res *vkit.Result, c realCase) {
 	res.Eval(vkit.JSON(c), true)
 }
 
+var nothingToShoot = map[string]string{
+	"http/scenario": "requests:\n  - name: \"r\"\n    method: \"GET\"\n    uri: \"/\"\n    headers: {}\nscenarios: []\n",
+	"grpc/scenario": "calls:\n  - name: \"c\"\n    call: \"target.TargetService.Hello\"\n    payload: '{}'\nscenarios: []\n",
+	"uri":           "\n\n",
+	"raw":           "\n",
+	"http/json":     "\n",
+}
+
 func realProviderFaults(res *vkit.Result) {
 	vkit.Fs()
 	if rp := os.Getenv("VERIF_REPLAY"); rp != "" {
@@ -546,6 +561,13 @@ func realProviderFaults(res *vkit.Result) {
 		for _, fault := range []string{"open-fails-late", "read-fails-after-0", "read-fails-after-3000", "read-fails-after-9000"} {
 			for _, inst := range []int{1, 4} {
 				realProviderFault(res, realCase{Provider: prov, Fault: fault, Instances: inst})
+			}
+		}
+	}
+	for _, prov := range []string{"http/scenario", "grpc/scenario", "uri", "raw", "http/json"} {
+		for _, inst := range []int{1, 4, 16} {
+			for rep := 0; rep < 3; rep++ {
+				realProviderFault(res, realCase{Provider: prov, Fault: "nothing-to-shoot", Instances: inst})
 			}
 		}
 	}
